@@ -146,6 +146,9 @@ def run_loop(ex, node, kind):
             mode = 'view'
             d = it.d if isinstance(it, VView) else it
             aux['kind'] = it.kind if isinstance(it, VView) else 'keys'
+            # `for x in [x for x in view if cond]`: cond(x), evaluated when the
+            # list was built, selects the elements
+            aux['filter'] = getattr(it, 'filter', None)
             aux['d'] = d
             aux['has0'] = P.read_field(d, 'has')
             if CONTAINERS[d.shape.cls][0] == 'dict':
@@ -162,6 +165,8 @@ def run_loop(ex, node, kind):
 
     # ---- entry
     from .contracts import assume_instances
+    # entry(<expr>) in this loop's invariant: <expr> in the state in which the loop was entered
+    ex.root.loop_entry = (P.snapshot(), {k: v for sc in ex.scopes for k, v in sc.items()})
     if ex.contract is not None:
         assume_instances(ex, ex.contract, spec.get('instantiate'))
     prove_clauses(ex, label + '.entry', inv)
@@ -214,13 +219,22 @@ def run_loop(ex, node, kind):
                 v = aux['val0'].shape.select(aux['val0'], k)
                 P._assume_wf(v)
                 elem = v if aux['kind'] == 'values' else STup([k, v])
+            if aux.get('filter') is not None:
+                P.assume(aux['filter'](elem))
             ex.assign_target(node.target, elem)
         else:
             go = False
             q = kshape.fresh('q')
             qs = kshape.unpack(q)
-            P.assume(z3.ForAll(qs, z3.Implies(has0.shape.select(has0, q).e,
-                                              seen.shape.select(seen, q).e)))
+            sel = has0.shape.select(has0, q).e
+            if aux.get('filter') is not None:
+                if aux['kind'] == 'keys':
+                    qelem = q
+                else:
+                    qv = aux['val0'].shape.select(aux['val0'], q)
+                    qelem = qv if aux['kind'] == 'values' else STup([q, qv])
+                sel = z3.And(sel, aux['filter'](qelem))
+            P.assume(z3.ForAll(qs, z3.Implies(sel, seen.shape.select(seen, q).e)))
     elif mode == 'itercall':
         v = ex.call_value(aux['f'], [], {})
         go = not P.decide(ex.eq(v, aux['sentinel']))
